@@ -15,11 +15,26 @@ type Val struct {
 	I *int64   `json:"i,omitempty"`
 	F *float64 `json:"f,omitempty"`
 	S *string  `json:"s,omitempty"`
+	B *string  `json:"b,omitempty"` // BLOB value (bytes as a string)
 }
 
 func IntVal(v int64) Val     { return Val{I: &v} }
 func FloatVal(v float64) Val { return Val{F: &v} }
 func TextVal(v string) Val   { return Val{S: &v} }
+func BlobVal(v string) Val   { return Val{B: &v} }
+
+// SameValue: equal type and value; a BLOB attribute may come back as TEXT with the same
+// bytes (the tool's reader hands byte values on as strings; BLOB attributes are outside
+// the property's quantifier, only their bytes are compared).
+func SameValue(got, want Val) bool {
+	if got.String() == want.String() {
+		return true
+	}
+	if want.B != nil && got.S != nil && *got.S == *want.B {
+		return true
+	}
+	return false
+}
 
 func (v Val) Go() interface{} {
 	switch {
@@ -29,6 +44,8 @@ func (v Val) Go() interface{} {
 		return *v.F
 	case v.S != nil:
 		return *v.S
+	case v.B != nil:
+		return []byte(*v.B)
 	}
 	return nil
 }
@@ -41,6 +58,8 @@ func (v Val) String() string {
 		return fmt.Sprintf("real:%x", math.Float64bits(*v.F))
 	case v.S != nil:
 		return fmt.Sprintf("text:%q", *v.S)
+	case v.B != nil:
+		return fmt.Sprintf("blob:%q", *v.B)
 	}
 	return "null"
 }
@@ -94,6 +113,9 @@ func (t *Table) PKIndex() int {
 type Source struct {
 	SRS    []SRS   `json:"srs"`
 	Tables []Table `json:"tables"`
+	// MetaSeed != 0: the gpkg_geometry_columns rows are inserted in an order (derived from
+	// it) that differs from the order in which the tables and gpkg_contents rows are created
+	MetaSeed uint64 `json:"meta_seed,omitempty"`
 }
 
 const metaSQL = `
@@ -149,9 +171,6 @@ func WriteSource(path string, src *Source) error {
 			if _, err := db.Exec(`INSERT INTO gpkg_contents(table_name, data_type, identifier, srs_id) VALUES (?,?,?,?)`, t.Name, "features", t.Name, t.SRSID); err != nil {
 				return fmt.Errorf("contents: %w", err)
 			}
-			if _, err := db.Exec(`INSERT INTO gpkg_geometry_columns VALUES (?,?,?,?,0,0)`, t.Name, t.GeomCol, t.GeomType, t.SRSID); err != nil {
-				return fmt.Errorf("geometry_columns: %w", err)
-			}
 		} else {
 			if _, err := db.Exec(`INSERT INTO gpkg_contents(table_name, data_type, identifier) VALUES (?,?,?)`, t.Name, "attributes", t.Name); err != nil {
 				return fmt.Errorf("contents: %w", err)
@@ -196,6 +215,27 @@ func WriteSource(path string, src *Source) error {
 		stmt.Close()
 		if err := tx.Commit(); err != nil {
 			return err
+		}
+	}
+	// geometry columns last, possibly in another order than the tables were created
+	var spatial []int
+	for ti := range src.Tables {
+		if src.Tables[ti].Spatial {
+			spatial = append(spatial, ti)
+		}
+	}
+	if src.MetaSeed != 0 {
+		x := src.MetaSeed
+		for i := len(spatial) - 1; i > 0; i-- {
+			x = x*6364136223846793005 + 1442695040888963407
+			j := int((x >> 33) % uint64(i+1))
+			spatial[i], spatial[j] = spatial[j], spatial[i]
+		}
+	}
+	for _, ti := range spatial {
+		t := &src.Tables[ti]
+		if _, err := db.Exec(`INSERT INTO gpkg_geometry_columns VALUES (?,?,?,?,0,0)`, t.Name, t.GeomCol, t.GeomType, t.SRSID); err != nil {
+			return fmt.Errorf("geometry_columns: %w", err)
 		}
 	}
 	return nil
@@ -272,7 +312,7 @@ func scanVal(typ string, v interface{}) (Val, error) {
 		}
 	case "blob":
 		if x, ok := v.([]byte); ok {
-			return TextVal("blob:" + string(x)), nil
+			return BlobVal(string(x)), nil
 		}
 	}
 	return Val{}, fmt.Errorf("gpkgh: value %T with typeof %s", v, typ)
